@@ -75,12 +75,14 @@ def _serve(conn, workdir):
         reads["n"] = 0
         t0 = time.time()
         try:
+            opts = dict(opts or {})
+            log_contents = bool(opts.pop("log_contents", False))        # the tools' --log-ksr-contents / --log-previous-skr-contents switches
             if kind == "ksr":
                 pol = RequestPolicy(**opts) if opts else RequestPolicy()
-                obj = kload.load_ksr(path, pol, raise_original=True)
+                obj = kload.load_ksr(path, pol, raise_original=True, log_contents=log_contents)
             else:
                 pol = ResponsePolicy(**opts) if opts else ResponsePolicy()
-                obj = sload.load_skr(path, pol)
+                obj = sload.load_skr(path, pol, log_contents=log_contents)
             ok_validated = validated["ok"] and validated["id"] == id(obj)
             out = ("object", type(obj).__name__, {"validated": ok_validated, "reads": reads["n"], "bundles": len(obj.bundles)}, time.time() - t0)
         except RecursionError:
